@@ -471,6 +471,7 @@ func genC03(c *Ctx) {
 			g.shape(s, "depth<=3,atoms=3,keywords-written", map[string]bool{"top": true, "filter": true, "sample": true})
 		}
 	}
+	c03ArgRelative(g)
 	c.Exhaustive = true
 	c.Extra["exhaustive_cases"], c.Extra["exhaustive_ms"] = c.N, int(time.Since(t0).Milliseconds())
 	t1 := time.Now()
@@ -478,7 +479,70 @@ func genC03(c *Ctx) {
 	c.Extra["random_ms"] = int(time.Since(t1).Milliseconds())
 	c.Extra["style_histogram"] = g.stHist
 
-	c.Rule = fmt.Sprintf("A tree is a group {..}, {AND,..} or {OR,..} whose operands are leaves or trees; an atom is a leaf or an empty group; a leaf has depth 0. The property's literal bound (every tree of depth <=3 and width <=4) has more than 10^21 members and cannot be enumerated, so the complete blocks are bounded by the number of atoms as well. Complete blocks, each with EVERY assignment of truth values to its leaves: (1) every flat group of width 0..%d in the three spellings, in all five placements; (2) every tree of depth <=3, width <=3 with <=2 atoms in the three spellings (2421 trees: all unary chains, empty groups at every level, all two-operand nestings), in all five placements; (3) quick: every tree of depth <=3, width <=3 with exactly 3 atoms and the keyword written (AND/OR; 7790 trees) as the whole query and as a filter body, plus one random (placement, assignment) per tree in the three other placements (classes sample/.., not complete); thorough: every tree with exactly 3 atoms in the three spellings (73767 trees) as the whole query and as a filter body, and the 7790 keyword-written ones completely in the three other placements. Width 4 is reached exhaustively only by the flat block; wider and deeper trees are sampled by the random block. Placements: whole query `{..}` (exact result `bool`), operand of another group (8 wrappers: neutral and deciding constant siblings before/after, double nesting, omitted keyword), function argument (`$.t.Equal({..})`, `$.f.Equal`, `$.t.NotEqual`, `$.f.AnyOf`, and as one of two arguments `$.t.AnyOf($.f,{..})`, `$.f.AnyOf({..},$.t)`), nested group inside a filter body (`$.xs[{..}]`: all elements or none), and the tree itself as a filter body `$.xs[OR,@.a,{..}]` over an array whose elements realise all 2^L assignments (one case per tree: expected = the elements on which the tree is true, in order). Leaf i is realised by one of 6 kinds in rotation (boolean field, `.n.Greater(3)`, `.c.Not()`, `.s.Prefix(\"y\")`, `.n.Equal(5)`, `.n.GreaterOrEqual($.five)`) and the data rotates over 11 Go renderings (maps with string/named/interface keys, structs, pointers to objects, Go arrays, float64/int/uint/decimal/named/pointer numbers, named bools and strings). random: trees of depth <=6 and width <=%d over comparison, string-test, boolean and null-test leaves (arguments may read `$`) on random data, placed as whole query, argument, filter body over 0..6 random elements (leaves inside nested groups read `@` or `$`) and group inside a filter body. Expected values come from the generator's own recursive evaluation. distinct = distinct (query skeleton, data shape to depth 2, outcome class); non-trivial = outcome class is not the most common one", flatW, c03RandWidth(c))
+	c.Rule = fmt.Sprintf("A tree is a group {..}, {AND,..} or {OR,..} whose operands are leaves or trees; an atom is a leaf or an empty group; a leaf has depth 0. The property's literal bound (every tree of depth <=3 and width <=4) has more than 10^21 members and cannot be enumerated, so the complete blocks are bounded by the number of atoms as well. Complete blocks, each with EVERY assignment of truth values to its leaves: (1) every flat group of width 0..%d in the three spellings, in all five placements; (2) every tree of depth <=3, width <=3 with <=2 atoms in the three spellings (2421 trees: all unary chains, empty groups at every level, all two-operand nestings), in all five placements; (3) quick: every tree of depth <=3, width <=3 with exactly 3 atoms and the keyword written (AND/OR; 7790 trees) as the whole query and as a filter body, plus one random (placement, assignment) per tree in the three other placements (classes sample/.., not complete); thorough: every tree with exactly 3 atoms in the three spellings (73767 trees) as the whole query and as a filter body, and the 7790 keyword-written ones completely in the three other placements. Width 4 is reached exhaustively only by the flat block; wider and deeper trees are sampled by the random block. Placements: whole query `{..}` (exact result `bool`), operand of another group (8 wrappers: neutral and deciding constant siblings before/after, double nesting, omitted keyword), function argument (`$.t.Equal({..})`, `$.f.Equal`, `$.t.NotEqual`, `$.f.AnyOf`, and as one of two arguments `$.t.AnyOf($.f,{..})`, `$.f.AnyOf({..},$.t)`), nested group inside a filter body (`$.xs[{..}]`: all elements or none), and the tree itself as a filter body `$.xs[OR,@.a,{..}]` over an array whose elements realise all 2^L assignments (one case per tree: expected = the elements on which the tree is true, in order). Leaf i is realised by one of 6 kinds in rotation (boolean field, `.n.Greater(3)`, `.c.Not()`, `.s.Prefix(\"y\")`, `.n.Equal(5)`, `.n.GreaterOrEqual($.five)`) and the data rotates over 11 Go renderings (maps with string/named/interface keys, structs, pointers to objects, Go arrays, float64/int/uint/decimal/named/pointer numbers, named bools and strings). arg-relative block: every flat group of width 1..3 in the three spellings over the leaves `@`, `@.Not()`, `@.Equal($.t)`, `$.t`, `$.f` as the argument of Equal/NotEqual/AnyOf applied to a true and to a false receiver under a key (the document's own t/f carry the other values) and inside a filter `$.xs[@.b.Equal({..})]`: inside an argument `@` is the value the function is applied to. random: trees of depth <=6 and width <=%d over comparison, string-test, boolean and null-test leaves (arguments may read `$`) on random data, placed as whole query, argument, filter body over 0..6 random elements (leaves inside nested groups read `@` or `$`) and group inside a filter body. Expected values come from the generator's own recursive evaluation. distinct = distinct (query skeleton, data shape to depth 2, outcome class); non-trivial = outcome class is not the most common one", flatW, c03RandWidth(c))
+}
+
+// c03ArgRelative: groups as function arguments whose operands read `@` - inside an argument `@` is the value the function is
+// applied to (not the document, not the filter element). Every flat group of width 1..3 in the three spellings over five leaf
+// kinds, for a true and a false receiver, under a key, inside a filter, and nested once.
+func c03ArgRelative(g *c03Run) {
+	leaves := []*c03Leaf{
+		{path: "", f: func(cur, _ *Doc) bool { return cur.B }},
+		{path: ".Not()", f: func(cur, _ *Doc) bool { return !cur.B }},
+		{path: ".Equal($.t)", f: func(cur, root *Doc) bool { return cur.B == root.get("t").B }},
+		c03True, c03False,
+	}
+	var trees []*c03Node
+	for _, m := range []string{"", "AND", "OR"} {
+		var rec func(w int, kids []*c03Node)
+		rec = func(w int, kids []*c03Node) {
+			if len(kids) > 0 {
+				trees = append(trees, &c03Node{mode: m, kids: append([]*c03Node{}, kids...)})
+			}
+			if w == 0 {
+				return
+			}
+			for _, l := range leaves {
+				rec(w-1, append(kids, &c03Node{leaf: l}))
+			}
+		}
+		rec(3, nil)
+	}
+	n := 0
+	for _, t := range trees {
+		for _, recv := range []bool{true, false} {
+			n++
+			// the document's own t/f differ from the receiver's, and the document is an object (not a boolean)
+			o := dObj("v", dBool(recv), "t", dBool(false), "f", dBool(true))
+			root := dObj(append([]any{"o", o, "xs", dArr(dObj("id", dNum("0"), "b", dBool(recv)), dObj("id", dNum("1"), "b", dBool(!recv)), dObj("id", dNum("2"), "b", dBool(recv)))}, c03Consts()...)...)
+			cur := dBool(recv)
+			v := c03Eval(t, cur, root)
+			gt := c03Text(t, true, "{", "}")
+			var q string
+			var want bool
+			switch n % 4 {
+			case 0:
+				q, want = "$.o.v.Equal("+gt+")", recv == v
+			case 1:
+				q, want = "$.o.v.NotEqual("+gt+")", recv != v
+			case 2:
+				q, want = "$.o.v.AnyOf($.f,"+gt+")", recv == false || recv == v
+			default: // nested once more
+				q, want = "$.o.v.Equal({OR,"+gt+",$.f})", recv == v
+			}
+			g.c.DoR(Case{Q: q, D: g.render(root), Cls: "exhaustive/arg-relative/under-key", InDomain: true, XK: "exact", X: c03BoolLine(want)})
+			if n%3 == 0 {
+				// inside a filter: `@` in the body is the element, `@` in the argument is the element's b
+				var kept []*Doc
+				for _, e := range root.get("xs").A {
+					if e.get("b").B == c03Eval(t, dBool(e.get("b").B), root) {
+						kept = append(kept, e)
+					}
+				}
+				g.c.DoR(Case{Q: "$.xs[@.b.Equal(" + gt + ")]", D: g.render(root), Cls: "exhaustive/arg-relative/in-filter", InDomain: true, XK: "logical", X: logicalDoc(dArr(kept...))})
+			}
+		}
+	}
 }
 
 // ---------- random deeper trees over comparison leaves on random data ----------
